@@ -17,13 +17,14 @@ import (
 // C11: no surviving run leaves lock/temp/half-created files; reads modify nothing.
 
 type c11Meta struct {
-	Kind     string      `json:"kind"` // mixed | readonly
-	Txns     [][]TxnSpec `json:"txns"`
-	Rows     []int       `json:"rows"`
-	Extras   []string    `json:"extras"` // per process: trailing statements
-	Prefixes []string    `json:"prefixes"`
-	Injected bool        `json:"injected"`
-	Stale    []string    `json:"stale,omitempty"` // control files that were there before any process started (left by a killed process)
+	Kind      string      `json:"kind"` // mixed | readonly
+	Txns      [][]TxnSpec `json:"txns"`
+	Rows      []int       `json:"rows"`
+	Extras    []string    `json:"extras"` // per process: trailing statements
+	Prefixes  []string    `json:"prefixes"`
+	Injected  bool        `json:"injected"`
+	OutExists []string    `json:"out_exists,omitempty"` // --out files that were there (empty) before the run
+	Stale     []string    `json:"stale,omitempty"`      // control files that were there before any process started (left by a killed process)
 }
 
 type c11 struct{}
@@ -198,6 +199,12 @@ func (c11) Gen(seed uint64, tier string) *Scenario {
 		outFile := ""
 		if r.Bool(0.15) {
 			outFile = fmt.Sprintf("out%d.txt", p)
+			if ro := Sub(seed, fmt.Sprintf("c11-out-exists-%d", p)); ro.Bool(0.25) {
+				// the --out path names a file that is already there (empty, e.g. made by mktemp): csvq refuses
+				// it or uses it - it does not take it away
+				sc.Files = append(sc.Files, FileSpec{Name: outFile, Content: ""})
+				m.OutExists = append(m.OutExists, outFile)
+			}
 		}
 		sc.Procs = append(sc.Procs, ProcSpec{OutFile: outFile, CPU: r.Pick(1, 1, 1, 2, 4), WaitTimeoutS: w.wt + float64(137*(p+1))*1e-9, RetryDelayNs: w.retry + int64(1009*(p+1)+2*p*p), Format: "CSV", Quiet: true})
 	}
@@ -560,6 +567,14 @@ func judgeLeftovers(o *Outcome, prop string, sc *Scenario, meta *c11Meta, res *R
 			continue
 		}
 		name := filepath.Clean(ps.OutFile)
+		if contains(meta.OutExists, ps.OutFile) {
+			if _, exists := res.Final[name]; !exists {
+				o.viol(prop, "out-file", "existing-out-file-removed", fmt.Sprintf("run %d: the --out file %s of p%d existed (empty) before the run and is gone after it (%s)", runIdx, ps.OutFile, i, outputsShort(res)[i]))
+			} else {
+				o.Stats.probe("existing-out-file-kept")
+			}
+			continue
+		}
 		if f, exists := res.Final[name]; exists && len(f.Data) == 0 {
 			o.viol(prop, "out-file", "empty-out-file-left", fmt.Sprintf("run %d: p%d wrote nothing to its --out file %s, which is still there (empty) after the process has ended (%s)", runIdx, i, ps.OutFile, outputsShort(res)[i]))
 		} else if !exists {
